@@ -71,6 +71,11 @@ class TModel(ChanModel):
         k = op[0]
         if k == "dl":
             return self._op(w, op[2], op[1])
+        if k == "cca":
+            # waits attempted from inside a callback invoked by C are refused (coerced to an error) and leave nothing that
+            # could fire later; an inert timer keeps the history distinct and makes time pass the would-be expiry
+            self.timers.append([self.now + int(op[1] * 1000), w, -1, "deadline"])
+            return self._op(w, op[2], deadline)
         if k == "badnr":
             # the rejected net/ calls leave nothing behind: same as the inner operation alone
             return self._op(w, op[2], deadline)
